@@ -370,7 +370,16 @@ pub fn finish(rep: Report, t: Totals, t0: Instant) -> i32 {
     let mut known = 0;
     let _ = std::fs::create_dir_all(format!("{}/replays", verif));
     let mut vio_summaries = vec![];
+    let mut preconditions = 0;
     for (key, (v, n)) in &by_key {
+        // a failed precondition (the honest flow that should lead to the explored states fails, a field locator does
+        // not find its field, ...) means this property cannot be decided on this tree; it is not a verdict about it
+        if key.starts_with("machinery/") || key.starts_with("honest-step/") {
+            preconditions += 1;
+            println!("PRECONDITION-FAILED property={} {} [{}; {} instance(s); first in suite {}] - this check cannot decide its property here (honest behaviour is C01's/C09's business)", rep.property, v.what, key, n, v.suite);
+            vio_summaries.push(json!({"key": key, "what": v.what, "suite": v.suite, "instances": n, "precondition": true}));
+            continue;
+        }
         let is_known = findings.iter().any(|f| f.property == rep.property && f.status == "known" && &f.key == key);
         if is_known {
             known += 1;
@@ -447,6 +456,9 @@ pub fn finish(rep: Report, t: Totals, t0: Instant) -> i32 {
     }
     if new_violations > 0 {
         1
+    } else if preconditions > 0 {
+        eprintln!("machinery error: {} precondition(s) of this check failed; the property is undecided", preconditions);
+        2
     } else {
         0
     }
